@@ -174,10 +174,7 @@ func (stats GetMessagesStats) NickWithFallback() string {
 	if stats.Nick != "" {
 		return stats.Nick
 	}
-	if session, err := stats.api.ircServer().GetSession(stats.Session); err == nil {
-		return session.Nick
-	}
-	return ""
+	return stats.api.ircServer().GetNick(stats.Session)
 }
 
 // StartedAndRelative converts |stats.Started| into a human-readable formatted
